@@ -17,13 +17,18 @@ from vf.core.universe import COLOR, LIB_MSGS
 
 LEVEL = "model_checking"
 
+# The members of one group are deliberately NOT declared next to each other (a hand-written class
+# in field-number order with interleaved oneofs), and not in field-number order either.
 QUICK_FIELDS = (
-    Field("i", 1, "int32", "oneof", group="g1"), Field("s", 2, "string", "oneof", group="g1"),
-    Field("e", 3, "enum:Color", "oneof", group="g1"),
-    Field("sub", 4, "msg:Sub", "oneof", group="g2"), Field("b", 5, "bool", "oneof", group="g2"),
-    Field("p", 6, "int32"),
+    Field("i", 1, "int32", "oneof", group="g1"),
+    Field("sub", 4, "msg:Sub", "oneof", group="g2"),
     # members whose python value is not a Message although the field is one on the wire
-    Field("t", 9, "timestamp", "oneof", group="g3"), Field("u", 11, "duration", "oneof", group="g3"),
+    Field("t", 9, "timestamp", "oneof", group="g3"),
+    Field("s", 2, "string", "oneof", group="g1"),
+    Field("p", 6, "int32"),
+    Field("b", 5, "bool", "oneof", group="g2"),
+    Field("u", 11, "duration", "oneof", group="g3"),
+    Field("e", 3, "enum:Color", "oneof", group="g1"),
     Field("w", 12, "wrap:int32", "oneof", group="g3"),
 )
 THOROUGH_EXTRA = (
